@@ -179,9 +179,12 @@ def make_case(ctx, idx):
         inner = geomgen.Node("cut", None, [], [a, b], flags=({"contained": True} if rng.random() < 0.8 else None))
         node = geomgen.Node("bdry", None, [], [inner]) if rng.random() < 0.8 else inner
     else:
-        g.allow_rotate = False
-        g.allow_translate = False
-        inner = g.solid(min(depth, 2), rng.choice(["x", "x", "y", "z"]))
+        # boundaries, half of them of moved domains (Translate / Rotate about a pivot: their `.boundary` is the moved boundary)
+        if rng.random() < 0.5:
+            g.allow_rotate = False
+            g.allow_translate = False
+        var_ = rng.choice(["x", "x", "y", "z"])
+        inner = g.solid(min(depth, 2) + (1 if g.allow_translate else 0), var_)
         node = geomgen.Node("bdry", None, [], [inner])
     if mode == "far":
         mode = "bdry" if node.kind == "bdry" else {"x": "solid2", "y": "solid1", "z": "solid3"}[node.vars()[0]]
@@ -391,6 +394,88 @@ def _param_points(tp, torch, params, envs):
         s_ = tp.spaces.R1(p_)
         pspace = s_ if pspace is None else pspace * s_
     return tp.spaces.Points(torch.tensor([[float(Fr(env[p_][0])) for p_ in params] for env in envs], dtype=torch.float32), pspace)
+
+
+def moved_boundary_all(cases, rep):
+    """`.boundary` of a translated / rotated domain is the moved boundary of the inner domain.  For boundary cases whose
+    expression is a chain of motions around an inner domain D: (1) points of the library's sampler of D.boundary, moved
+    FORWARD exactly (rational arithmetic on the sampled float32 values, the result handed over in float64), must be accepted
+    by the moved domain's boundary test; (2) points of the moved boundary's own sampler, moved BACK exactly, must be accepted
+    by D.boundary's test.  (Own-sample acceptance alone cannot see a boundary that is moved by another motion than the
+    domain: such an object is self-consistent.)"""
+    tp = common.use_repo()
+    import torch
+    for cs in cases:
+        if cs["mode"] != "bdry" or cs.get("scale", "1") != "1" or cs.get("tol"):
+            continue
+        node = geomgen.from_json(cs["dom"])
+        chain, cur = [], node.kids[0]
+        while cur.kind in ("translate", "rotate"):
+            chain.append(cur)
+            cur = cur.kids[0]
+        if not chain or len(node.vars()) != 1:
+            continue
+        var = node.vars()[0]
+        params = cs["params"]
+        envs = []
+        for _, env in cs["rows"]:
+            if env not in envs:
+                envs.append(env)
+        try:
+            Bm = node.to_tp(tp)
+            Bi = geomgen.Node("bdry", None, [], [cur]).to_tp(tp)
+        except Exception:
+            continue
+        sp = {1: tp.spaces.R1, 2: tp.spaces.R2, 3: tp.spaces.R3}[geomgen.DIM[var]](var)
+
+        def motion(m, e, p, forward):
+            if m.kind == "translate":
+                t = m.pfs[0].eval(e)
+                return [a + b for a, b in zip(p, t)] if forward else [a - b for a, b in zip(p, t)]
+            M, c = m.pfs[0].eval(e), m.pfs[1].eval(e)
+            if not forward:
+                det = M[0] * M[3] - M[1] * M[2]
+                M = [M[3] / det, -M[1] / det, -M[2] / det, M[0] / det]
+            qx, qy = p[0] - c[0], p[1] - c[1]
+            return [M[0] * qx + M[1] * qy + c[0], M[2] * qx + M[3] * qy + c[1]]
+
+        torch.manual_seed(cs["id"] + 11)
+        for env in envs[:2]:
+            e = {k: [Fr(a) for a in v_] for k, v_ in env.items()}
+            pr = _param_points(tp, torch, params, [env])
+            for direction, src, dst in (("forward", Bi, Bm), ("back", Bm, Bi)):
+                try:
+                    smp = common.call_with_timeout(3, src.sample_random_uniform, n=10, params=pr)
+                except Exception:
+                    rep.count("moved-boundary:sampler-failed")
+                    continue
+                if len(smp) != 10 or not torch.isfinite(smp.as_tensor).all():
+                    rep.count("moved-boundary:sampler-failed")
+                    continue
+                pts = []
+                for r in smp.as_tensor.tolist():
+                    pnt = [Fr(x) for x in r]
+                    for m in (reversed(chain) if direction == "forward" else chain):
+                        pnt = motion(m, e, pnt, direction == "forward")
+                    pts.append([float(x) for x in pnt])
+                q = tp.spaces.Points(torch.tensor(pts, dtype=torch.float64), sp)
+                prr = tp.spaces.Points(pr.as_tensor.repeat(len(pts), 1), pr.space) if params else pr
+                try:
+                    ok = dst._contains(q, prr).reshape(-1)
+                except Exception as ex:
+                    rep.fail(f"boundary membership raised {type(ex).__name__}: {str(ex)[:120]} on float64 points",
+                             dict(dom=cs["dom"], params=env, direction=direction, seed=cs["id"]))
+                    continue
+                rep.count("moved-boundary:" + direction, len(pts))
+                if not bool(ok.all()):
+                    i = int(torch.nonzero(~ok)[0])
+                    what = ("a point of the inner domain's boundary (the library's own boundary sample), moved by the same "
+                            "translation / rotation, is rejected by the moved domain's boundary test" if direction == "forward" else
+                            "a point of the moved domain's own boundary sampler, moved back by the inverse motion, is rejected by "
+                            "the inner domain's boundary test: the boundary object is not the moved boundary of the inner domain")
+                    rep.fail(f"{what}: {int((~ok).sum())} of {len(pts)} points, e.g. {pts[i]}",
+                             dict(dom=cs["dom"], expression=node.tokens(), params=env, direction=direction, point=pts[i], seed=cs["id"],
+                                  stream="moved-boundary"))
 
 
 def operand_boundary_prepare(case, rep):
@@ -635,6 +720,91 @@ def slice_stream(ctx, rep):
                 rep.fail(f"P({order[0]}=…, {order[1]}=…) accepts a point whose fixed coordinates are ({float(sv)}, {float(yv)}) instead of ({float(s0)}, {float(y0)})", where)
 
 
+def family_stream(ctx, rep):
+    """several evaluated copies of ONE parent: `D1 = D(t=v1); D2 = D(t=v2); …` — every copy (the EARLIER ones too, after the
+    later ones were made) and the parent afterwards must answer membership for their own values: copy i at rows of the other
+    parameter D agrees with the exact model of the original expression at {t: v_i, D: row}; the parent with full rows agrees
+    with the model.  (Evaluation returns a new object and leaves parent and siblings unchanged — C17 owns partial evaluation
+    as such; this keeps 'parameter-dependent shapes are evaluated with each point's own parameter row' honest for objects
+    that share a parent.)  Parameter functions depend on BOTH parameters so that fixing t is a partial evaluation."""
+    tp = common.use_repo()
+    import torch
+    rng = ctx.rng
+    jobs, lines = [], []
+    for idx in range(ctx.scale(16, 240)):
+        # no declared default arguments here: with `def f(t, D=…)` the call D(t=v) is a COMPLETE evaluation (absent optional
+        # names take their defaults) and the copy rightly ignores later rows of D
+        g = Gen(rng, params=["t", "D"], p_dep=0.9, p_default=0.0, allow_rotate=True)
+        g.p_two = True
+        inner = g.solid(rng.choice([1, 2, 2]), "x")
+        node = geomgen.Node("bdry", None, [], [inner]) if rng.random() < 0.3 else inner
+        if not ({"t", "D"} <= set(node.free_vars())):
+            continue
+        tvals = rng.sample([Fr(k, 8) for k in range(0, 9)], rng.choice([2, 3]))
+        drows = [Fr(rng.randint(0, 16), 16) for _ in range(3)]
+        try:
+            parent = node.to_tp(tp)
+            copies = [parent(t=torch.tensor([[float(v)]])) for v in tvals]         # all copies first
+        except Exception as e:
+            rep.fail(f"evaluating a domain at one of its two parameters raised {type(e).__name__}: {str(e)[:150]}",
+                     dict(stream="family", dom=node.describe(), tvals=[str(v) for v in tvals]))
+            continue
+        pts = []
+        for d in drows:
+            for v in tvals:
+                near = []
+                near_points(inner, {"t": [v], "D": [d]}, rng, near)
+                pts += [([f32(a) for a in p_], d) for p_ in near[:4] if len(p_) == 2]
+            pts += [([Fr(rng.randint(-5 * 32, 5 * 32), 32) for _ in range(2)], d) for _ in range(4)]
+        X = tp.spaces.R2("x")
+        q = tp.spaces.Points(torch.tensor([[float(a) for a in p_] for p_, _ in pts], dtype=torch.float32), X)
+        Dp = tp.spaces.Points(torch.tensor([[float(d)] for _, d in pts], dtype=torch.float32), tp.spaces.R1("D"))
+        answers = []
+        try:
+            for cp in copies:                      # earliest copy first, after ALL copies exist
+                answers.append(cp._contains(q, Dp).reshape(-1).tolist())
+            full = []
+            for v in tvals:                        # and the parent, with complete rows
+                TD = tp.spaces.Points(torch.tensor([[float(v), float(d)] for _, d in pts], dtype=torch.float32),
+                                      tp.spaces.R1("t") * tp.spaces.R1("D"))
+                full.append(parent._contains(q, TD).reshape(-1).tolist())
+        except Exception as e:
+            rep.fail(f"membership of an evaluated copy / of the parent after the evaluations raised {type(e).__name__}: {str(e)[:150]}",
+                     dict(stream="family", dom=node.describe(), tvals=[str(v) for v in tvals]))
+            continue
+        dt = node.tokens()
+        op = "contains"
+        a0 = len(lines)
+        for v in tvals:
+            for p_, d in pts:
+                lines.append(f"{op} {ATOL} {RTOL} {BATOL} {dt} {env_tokens({'x': p_})} {env_tokens({'t': [v], 'D': [d]})}")
+        jobs.append((node, tvals, pts, answers, full, a0))
+    if not lines:
+        return
+    replies = common.run_driver("C05", lines)
+    for node, tvals, pts, answers, full, a0 in jobs:
+        rep.case(dict(dom=node.describe(), tvals=[str(v) for v in tvals]), True, kind="family",
+                 sample=dict(expression=node.tokens(), copies=[f"D(t={v})" for v in tvals]))
+        rep.count("mode:family-of-evaluated-copies")
+        rep.count("family:copies=%d" % len(tvals))
+        n = len(pts)
+        for i, v in enumerate(tvals):
+            for j, (p_, d) in enumerate(pts):
+                b, m = replies[a0 + i * n + j].split()
+                if b == "none" or Fr(m) <= MARGIN:
+                    continue
+                want = b == "1"
+                where = dict(stream="family", dom=node.describe(), expression=node.tokens(), tvals=[str(x) for x in tvals], copy=i,
+                             point=[str(a) for a in p_], D=str(d))
+                if bool(answers[i][j]) != want:
+                    rep.fail(f"copy #{i} = D(t={v}) of {len(tvals)} copies of one parent answers {bool(answers[i][j])} for a point that is "
+                             f"{'inside' if want else 'outside'} the set at t={v}, D={d} (exact evaluation, slack {float(Fr(m)):.3g}); "
+                             f"the copies were all made before any was used", where)
+                if bool(full[i][j]) != want:
+                    rep.fail(f"after {len(tvals)} evaluations D(t=…) the PARENT answers {bool(full[i][j])} at the row t={v}, D={d} for a point that is "
+                             f"{'inside' if want else 'outside'} (exact evaluation)", where)
+
+
 def run(ctx, rep, cases=None):
     rep.rule = ("domain expressions generated from the public constructors (depth in input_distribution), parameter-dependent shapes, "
                 "1-3 parameter rows paired row-wise with the query points; queries = random dyadic points + points at relative "
@@ -642,7 +812,7 @@ def run(ctx, rep, cases=None):
                 "parameter dependence; distinct = distinct (expression, rows)")
     fresh = cases is None
     if cases is None:
-        cases = [make_case(ctx, i) for i in range(ctx.scale(220, 2500))]
+        cases = [make_case(ctx, i) for i in range(ctx.scale(170, 2500))]
     lines, spans = [], []
     for cs in cases:
         ls = driver_lines(cs)
@@ -701,9 +871,11 @@ def run(ctx, rep, cases=None):
                 rep.count("within-margin(skipped)")
         boundary_acceptance(cs, rep)
     operand_boundary_all(cases, rep)
+    moved_boundary_all(cases, rep)
     interior_acceptance_all(cases, results, rep)
     if fresh:
         slice_stream(ctx, rep)
+        family_stream(ctx, rep)
         # ShapelyPolygon against the Lean polygon model (lean/TPV/Model/Polygon.lean, Props/Polygon.lean)
         import polygon
         polygon.run_stream(ctx, rep)
@@ -723,6 +895,10 @@ def replay(ctx, obj):
     if inp.get("stream") == "geomextra":
         import geomextra
         geomextra.replay(ctx, rep, inp)
+        return common.finish(ctx, rep, lean)
+    if inp.get("stream") == "moved-boundary":
+        case = dict(id=inp.get("seed", 0), mode="bdry", dom=inp["dom"], params=sorted(inp["params"].keys()), rows=[({}, inp["params"])])
+        moved_boundary_all([case], rep)
         return common.finish(ctx, rep, lean)
     if "point" in inp:
         case = dict(id=0, mode="replay", dom=inp["dom"], params=sorted(inp["params"].keys()), rows=[(inp["point"], inp["params"])])
